@@ -165,7 +165,10 @@ func c05StoreProgram(r *vrt.Rng) (src string, gIn, eIn []string) {
 	fw := []int{vrt.Pick(r, []int{3, 7, 8, 16, 24}), vrt.Pick(r, []int{8, 16, 31, 32, 33}), vrt.Pick(r, []int{1, 8, 16, 64})}
 	var b strings.Builder
 	fmt.Fprintf(&b, "package main\n\ntype S struct {\n\tf0 uint%d\n\tf1 uint%d\n\tf2 uint%d\n}\n\n", fw[0], fw[1], fw[2])
-	fmt.Fprintf(&b, "func main(a [%d]uint%d, b uint%d) ([%d]uint%d, uint%d, uint%d, uint%d) {\n", K, W, W, K, W, fw[0], fw[1], fw[2])
+	// two variables that take one of two literals depending on the inputs (a
+	// select whose both operands are constants re-wired to the variable's width)
+	sw := []int{vrt.Pick(r, []int{8, 16, 24, 64}), vrt.Pick(r, []int{7, 33, 64, 100})}
+	fmt.Fprintf(&b, "func main(a [%d]uint%d, b uint%d) ([%d]uint%d, uint%d, uint%d, uint%d, uint%d, int%d) {\n", K, W, W, K, W, fw[0], fw[1], fw[2], sw[0], sw[1])
 	fmt.Fprintf(&b, "\tvar s S\n\ts.f0 = uint%d(a[0])\n\ts.f1 = uint%d(b)\n\ts.f2 = uint%d(a[%d])\n", fw[0], fw[1], fw[2], K-1)
 	lit := func(w int) string {
 		bits := min(w, 62)
@@ -207,7 +210,10 @@ func c05StoreProgram(r *vrt.Rng) (src string, gIn, eIn []string) {
 		}
 		fmt.Fprintf(&b, "\t%s = %s\n", tgt, val)
 	}
-	b.WriteString("\treturn a, s.f0, s.f1, s.f2\n}\n")
+	cmpop := vrt.Pick(r, []string{">", "<=", "!=", "=="})
+	fmt.Fprintf(&b, "\tvar t0 uint%d\n\tif a[0] %s b {\n\t\tt0 = %s\n\t} else {\n\t\tt0 = %s\n\t}\n", sw[0], cmpop, lit(sw[0]), lit(sw[0]))
+	fmt.Fprintf(&b, "\tvar t1 int%d\n\tif a[%d] %s b {\n\t\tt1 = %s\n\t} else {\n\t\tt1 = %s\n\t}\n", sw[1], K-1, vrt.Pick(r, []string{">", "<="}), lit(min(sw[1]-1, 30)), lit(min(sw[1]-1, 30)))
+	b.WriteString("\treturn a, s.f0, s.f1, s.f2, t0, t1\n}\n")
 	av := r.Bytes(K * W / 8)
 	for i := range av {
 		if av[i] == 0 {
